@@ -76,7 +76,7 @@ func verifData(tag string, k int, concFloat bool, concInt bool) any {
 	case 6:
 		return nondetBool(tag + "b")
 	case 7:
-		return nondetStringFrom(tag+"s", "", "a", "12", "-3", "yes", "1.5", "x")
+		return nondetStringFrom(tag+"s", "", "a", "12", "-3", "yes", "1.5", "x", " ", "5m3s")
 	case 8:
 		return verifNamedInt(nondetInt64(tag + "ni"))
 	case 9:
@@ -155,7 +155,7 @@ func verifData(tag string, k int, concFloat bool, concInt bool) any {
 	panic("bad data shape")
 }
 
-const verifNSchemas = 27
+const verifNSchemas = 29
 
 func verifTotalSchema(k int) Type {
 	intP := func(req bool) *PropertySchema {
@@ -239,6 +239,10 @@ func verifTotalSchema(k int) Type {
 			NewObjectSchema("P", map[string]*PropertySchema{"next": NewPropertySchema(NewRefSchema("Q", nil), nil, false, nil, nil, nil, nil, nil)}),
 			NewObjectSchema("Q", map[string]*PropertySchema{"next": NewPropertySchema(NewRefSchema("P", nil), nil, false, nil, nil, nil, nil, nil)}),
 		)
+	case 27: // integer with units: unit strings, empty and blank strings go through the unit parser
+		return NewIntSchema(nil, nil, UnitDurationSeconds)
+	case 28: // float with units
+		return NewFloatSchema(nil, nil, UnitBytes)
 	}
 	panic("bad schema kind")
 }
@@ -272,11 +276,15 @@ func VerifC04_Total() {
 	op := nondetChoice("op", 4)
 	s := verifTotalSchema(sk)
 	// formatted floats (%f) and compiled patterns have no symbolic model: those combinations use concrete leaves
-	stringy := sk == 2 || sk == 4 || sk == 6 || sk == 7 || sk == 9 || sk == 14 || sk == 16
+	stringy := sk == 2 || sk == 4 || sk == 6 || sk == 7 || sk == 9 || sk == 14 || sk == 16 || sk == 27 || sk == 28
 	d := verifData("", dk, stringy, sk == 4)
 	verifReach("C04/total/built")
 	verifTotalOp(s, op, d)
 	verifReach("C04/total/returned")
+	// total on the next call too: an operation that returned must not leave the schema (or package-level state it
+	// shares, e.g. a unit definition's lock) in a condition that makes a later call panic or block
+	_, _ = s.Unserialize("1")
+	verifReach("C04/total/returned-again")
 }
 
 // the same shapes one level down: as list item, map value, property value, any-typed leaf
